@@ -96,6 +96,8 @@ type exxIn struct {
 	BR          exBR     `json:"br"`
 	World       exxWorld `json:"world"`
 	K           int      `json:"k"` // 0: undisturbed; k>0: the k-th API call (reads included) fails
+	// "list": an outage - every List call of this reconcile fails (an API server timing out on lists for a while)
+	Outage string `json:"outage,omitempty"`
 }
 
 // ---- names, references ----
@@ -561,8 +563,11 @@ func exxRunF(in *exxIn, failN int) (J, faultRun) {
 	cli := NewLogClient(inner)
 	rec := batchrelease.VerifNewReconciler(cli, theScheme)
 	cli.Calls, cli.FailCallN, cli.FaultHit = 0, failN, ""
+	if in.Outage == "list" {
+		cli.FailAllPrefix = "list "
+	}
 	res, err := rec.Reconcile(context.TODO(), ctrl.Request{NamespacedName: types.NamespacedName{Namespace: "ns", Name: "br"}})
-	cli.FailCallN = 0
+	cli.FailCallN, cli.FailAllPrefix = 0, ""
 	fr := faultRun{Err: err != nil, Requeue: res.RequeueAfter > 0 || res.Requeue, Calls: cli.Calls, Hit: cli.FaultHit, Writes: writesOf(cli)}
 	out := J{"requeue": res.RequeueAfter > 0 || res.Requeue, "err": err != nil}
 	world, cands := exxAbstractWorld(in, base, built)
@@ -587,7 +592,7 @@ func exxRunF(in *exxIn, failN int) (J, faultRun) {
 		st.StableRevision = exxRevOut(in.World.Shape, bk, st.StableRevision, cands)
 		out["br"] = J{"hasFinalizer": hasFin, "status": st}
 	}
-	if failN > 0 {
+	if failN > 0 || in.Outage != "" {
 		out["hit"] = cli.FaultHit
 	}
 	return out, fr
@@ -1114,6 +1119,11 @@ func exxFaults(c *Ctx, in *exxIn, all bool) {
 		c.Begin("reconcile", &f)
 		exxCase(c, &f)
 	}
+	// … and once during a List outage
+	f := *in
+	f.Outage = "list"
+	c.Begin("reconcile", &f)
+	exxCase(c, &f)
 }
 
 func runExecutorX(c *Ctx) {
